@@ -4,7 +4,7 @@ from hc_oracles import twin_oracle, crash_oracle, unsent_ack_oracle
 
 PROP = "C15"
 COQ_FILE = "props/C15.v"
-THEOREMS = ["C15_unknown_frame_identity", "C15_wrong_nonce_identity", "C15_replay_identity", "C15_accept_sound"]
+THEOREMS = ["C15_unknown_frame_identity", "C15_wrong_nonce_identity", "C15_replay_identity", "C15_accept_sound", "C15_feedback_from_fresh_frames"]
 USES_FLOATS = True
 NEEDS_RELEASE = False
 ASSUMPTIONS = [
